@@ -309,6 +309,17 @@ func genC03Op(t *simrt.Tape, selected bool) c03op {
 		if t.Choose(4) == 0 {
 			f.BinarySectionSize = []*imap.FetchItemBinarySectionSize{{Part: []int{2, 1}}}
 		}
+		if t.Choose(8) == 0 {
+			// a response with more data items than the client's per-message item buffer (32), with the
+			// literals, if any, coming after them
+			f.BinarySectionSize = nil
+			for j, k := 0, 30+t.Choose(40); j < k; j++ {
+				f.BinarySectionSize = append(f.BinarySectionSize, &imap.FetchItemBinarySectionSize{Part: []int{1 + j/9, 1 + j%9}})
+			}
+			if t.Choose(2) == 0 {
+				f.BodySection = nil
+			}
+		}
 		if o.Kind == "Store" {
 			f = &imap.FetchOptions{Flags: true}
 		}
@@ -483,6 +494,11 @@ func (s *emitSession) emitFetch(w *imapserver.FetchWriter) error {
 		if f.BodyStructure != nil {
 			rw.WriteBodyStructure(m.Body)
 		}
+		if len(f.BinarySectionSize) > 8 {
+			for i, sec := range f.BinarySectionSize {
+				rw.WriteBinarySectionSize(&imap.FetchItemBinarySection{Part: sec.Part}, m.BinSizes[i])
+			}
+		}
 		for i, sec := range f.BodySection {
 			wc := rw.WriteBodySection(sec, int64(len(m.Sections[i])))
 			b := m.Sections[i]
@@ -505,8 +521,10 @@ func (s *emitSession) emitFetch(w *imapserver.FetchWriter) error {
 			wc.Write(m.Binary[i])
 			wc.Close()
 		}
-		for i, sec := range f.BinarySectionSize {
-			rw.WriteBinarySectionSize(&imap.FetchItemBinarySection{Part: sec.Part}, m.BinSizes[i])
+		if len(f.BinarySectionSize) <= 8 {
+			for i, sec := range f.BinarySectionSize {
+				rw.WriteBinarySectionSize(&imap.FetchItemBinarySection{Part: sec.Part}, m.BinSizes[i])
+			}
 		}
 		if err := rw.Close(); err != nil {
 			return err
